@@ -39,8 +39,13 @@ DEFAULT_CLASSES = {
 }
 NORDIC = "nordicsemi.com"
 KCONFIG_ROLE_NAMES = {"APP_ROOT": "ROOT"}
-VENDORS = ["acme.example", "nordicsemi.com", "zażółć.example", "", "v" * 200, "ACME Corp", "日本.jp"]
-CLASSES = ["widget", "", "Ω-class", "c" * 150, "app core", "nRF54H20_sample_app", "sensor_fw", " lead", "trail "]
+# incl. pairs that a normalising / case-folding / stripping implementation would merge: case variants, NFC vs NFD,
+# full-width letters, sharp s, dotted capital I, surrounding blanks
+VENDORS = ["acme.example", "nordicsemi.com", "zażółć.example", "", "v" * 200, "ACME Corp", "日本.jp", "Acme.Example",
+           "\u00e9cole.example", "e\u0301cole.example", "\uff41\uff43\uff4d\uff45.example", "stra\u00dfe.example", "strasse.example",
+           "\u0130stanbul.example", " acme.example", "acme.example ", "NordicSemi.com"]
+CLASSES = ["widget", "", "Ω-class", "c" * 150, "app core", "nRF54H20_sample_app", "sensor_fw", " lead", "trail ", "Widget",
+           "nrf54h20_sample_app", "caf\u00e9", "cafe\u0301", "a\tb", "\u00a0widget"]
 SEVERABLE = (15, 16, 18, 20, 23)
 DOMAIN_FILES = {d: f"suit_installed_envelopes_{d}_merged.hex" for d in ("secure", "application", "radio")}
 
